@@ -147,6 +147,57 @@ def FillSeparable (EI : ο → Key φ → Option φ → χ → ρ) : Prop :=
 
 end Retarget
 
+/-!
+### The defect class "the cache test is a PARTIAL comparison" (finding S53-C04 of the unchanged library, repaired)
+
+The model above uses a total, decidable equality of fills.  The code wrote `cache.interp_fill != interp_fill`, and Python's `!=` between a
+`(below, above)` tuple and a numpy array / numpy number broadcasts to an array without a truth value: the `if` raises `ValueError`.  Here the
+comparison is a parameter `ne a b : Option Bool` (`none` = the comparison itself raises; it is reached only when branch and kind agree: `or`
+short-circuits), and `cmpErr` is the error the call then ends with; the cache is left as it was.  The core model is the instance `TotalNe`.
+-/
+namespace PartialCmp
+
+/-- `cache is None or cache.branch != branch or cache.kind != kind or <ne cache.fill fill>` -/
+def mustRebuild (ne : Option φ → Option φ → Option Bool) (c : Option (Key φ)) (k : Key φ) : Option Bool :=
+  match c with
+  | none => some true
+  | some c => if c.branch != k.branch || c.kind != k.kind then some true else ne c.fill k.fill
+
+/-- `loading_at` on one cache slot: (outcome, cache afterwards) -/
+def loadingAt (ne : Option φ → Option φ → Option Bool) (cmpErr : ρ) (E : ο → Key φ → χ → ρ) (B : ο → Key φ → Option ρ) (o : ο)
+    (c : Option (Key φ)) (k : Key φ) (x : χ) : ρ × Option (Key φ) :=
+  match mustRebuild ne c k with
+  | none => (cmpErr, c)
+  | some true =>
+    match B o k with
+    | some err => (err, c)
+    | none => (E o k x, some k)
+  | some false => (evalCached E o c k x, c)
+
+def after (ne : Option φ → Option φ → Option Bool) (cmpErr : ρ) (E : ο → Key φ → χ → ρ) (B : ο → Key φ → Option ρ) (o : ο)
+    (c : Option (Key φ)) (qs : List (Key φ × χ)) : Option (Key φ) :=
+  qs.foldl (fun c q => (loadingAt ne cmpErr E B o c q.1 q.2).2) c
+
+/-- the comparison never raises and is the negation of equality -/
+def TotalNe (ne : Option φ → Option φ → Option Bool) : Prop :=
+  ∀ a b, ne a b = some (a != b)
+
+/-- the repaired comparison (`_same_fill` of core/pointisotherm.py) on the kinds of `Fill`: a tuple only equals a tuple, element by element;
+`None` only `None`; a string only an equal string; anything else is compared as arrays (`numpy.array_equal`: here equality of `ν`) -/
+def sameFill {ν : Type} [DecidableEq ν] : Option (Fill ν) → Option (Fill ν) → Bool
+  | some (.pair a b), some (.pair c d) => a == c && b == d
+  | some (.pair _ _), _ => false
+  | _, some (.pair _ _) => false
+  | none, none => true
+  | none, _ => false
+  | _, none => false
+  | some .extrapolate, some .extrapolate => true
+  | some .extrapolate, _ => false
+  | _, some .extrapolate => false
+  | some (.value v), some (.value w) => v == w
+
+end PartialCmp
+
 end PgVerif.Model.Cache
 
 /-!
